@@ -28,7 +28,7 @@ CUTS = (0, 1, 11, 12, 13, 'mid', 'last')
 
 
 def budget(tier):
-    return dict(shards=16, examples=2 if tier == 'quick' else 40, no_shrink=True)
+    return dict(shards=16, examples=2 if tier == 'quick' else 10, no_shrink=True)
 
 
 @st.composite
